@@ -25,6 +25,9 @@ func goTypeName(n *Node) string {
 		if n.W == "64" {
 			return "int64"
 		}
+		if n.W == "32" {
+			return "int32"
+		}
 		return "int"
 	case "float":
 		if n.W == "32" {
